@@ -11,7 +11,8 @@
    (C01_sound_full below); those are decided per run by the oracle of tools/props/c01.py on the
    real implementation (raw unit of every global through the hook vs the inferred type). *)
 From Coq Require Import String List ZArith QArith Qcanon Bool.
-From NV Require Import Dim.Model Dim.Infer Dim.Sem Dim.Proofs Dim.Run Dim.RunProofs Dim.RunTreeProofs.
+From NV Require Import Dim.Model Dim.Infer Dim.Sem Dim.Proofs Dim.Run Dim.RunProofs Dim.RunTreeProofs Dim.RunProgProofs Dim.FloatExact.
+From Coq Require Import Floats.
 Import ListNotations.
 Open Scope string_scope.
 
@@ -39,6 +40,45 @@ Theorem C01_expr_agree_partial :
       tc_env s1 = gs /\ exists d, t = TDim d /\ novar d = true /\ rt_expr g rexp e = RDim d.
 Proof. exact rt_expr_agree. Qed.
 Print Assumptions C01_expr_agree_partial.
+
+(* Programs: every accepted sequence of `let` definitions and expression statements of the
+   arithmetic fragment over a growing closed (monomorphic) environment runs without a unit
+   incompatibility (rt_prog does not return None), and the run-time unit dimension of every
+   defined global / expression result is exactly the type the checker reports for it
+   (Quantified 0 (TDim d) []).  Hypotheses: ExpAgree; the initial run-time environment agrees with
+   the static one (env_agree2); the environment only contains generalised entries (allq); and —
+   built into rt_prog — a name resolves to its LATEST binding (bytecode_interpreter.rs
+   `rposition`; the assumption the seeded C01 regression violated). *)
+Theorem C01_program_sound_partial :
+  forall (rexp : expr -> option Qc), exp_agree_all rexp ->
+  forall (p : list item), Forall item_arith p ->
+  forall (g : string -> option dtype) (s : tc) (outs : list sout) (s' : tc),
+    env_agree2 (tc_env s) g -> allq (tc_env s) ->
+    check (map stmt_of p) s = Ok (outs, s') ->
+    exists ds, rt_prog g rexp p = Some ds
+               /\ outs = map (fun id => out_of (fst id) (snd id)) (combine p ds)
+               /\ length ds = length p.
+Proof. exact prog_sound. Qed.
+Print Assumptions C01_program_sound_partial.
+
+(* The ExpAgree hypothesis is really needed — finding C01-exponent-f64, with the witness computed
+   inside the kernel on primitive binary64 floats through a port of num-rational's
+   approximate_float (Dim/FloatExact.v):  for  `(m^2)^(0.1+0.2)`  the checker evaluates the
+   exponent in exact rationals (the literals are converted one by one: 1/10 and 1/5, sum 3/10,
+   type Length^(3/5)), the VM evaluates 0.1+0.2 in f64 first and converts the sum:
+   1125899906842624/3752999689475413.  The stored unit m^(2251799813685248/3752999689475413) and
+   m^(3/5) then fail the run-time unit check of `+` although both operands have the static type
+   Length^(3/5). *)
+Theorem C01_refuted_exponent :
+  from_f64 0.1%float = Some (1 # 10)%Q /\ from_f64 0.2%float = Some (1 # 5)%Q
+  /\ (match const_eval (EBin OAdd (EScalar (qcf 1 10)) (EScalar (qcf 1 5))) with
+      | Ok q => qc_eqb q (qcf 3 10) | Err _ => false end) = true
+  /\ from_f64 (0.1 + 0.2)%float = Some (1125899906842624 # 3752999689475413)%Q
+  /\ dtype_eqb (dpower [(FBase "Length", qc 2)] (qcf 3 10)) (dpower [(FBase "Length", qc 1)] (qcf 3 5)) = true
+  /\ rt_binop OAdd (dpower [(FBase "Length", qc 2)] (Q2Qc (1125899906842624 # 3752999689475413)))
+                   (dpower [(FBase "Length", qc 1)] (qcf 3 5)) None = RIncompatible.
+Proof. vm_compute. repeat split; reflexivity. Qed.
+Print Assumptions C01_refuted_exponent.
 
 (* full statement, not proved (rt_expr is in Dim/Run.v) *)
 Definition C01_sound_full : Prop :=
@@ -80,4 +120,18 @@ Proof.
     apply ABin; [auto 10| |apply AScalar; exact N].
     apply ABin; [auto 10| |apply AUnit].
     apply ABin; [auto 10|apply AScalar; exact N|apply AUnit].
+Qed.
+
+(* non-vacuity of the program theorem: `let va = 2 meter; let vb = va / second; vb * vb` re-using
+   and re-binding names *)
+Example C01_program_nonvacuous :
+  let s := mkTc ex01_env (mkReg ["Length"; "Time"] [] []) 5%N [] in
+  let p := [ILet "va" (EBin OMul (EScalar (qc 2)) (EUnit "meter"));
+            ILet "vb" (EBin ODiv (EIdent "va") (EUnit "second"));
+            ILet "va" (EBin OMul (EIdent "vb") (EIdent "vb"));
+            IExpr (EBin OAdd (EIdent "va") (EIdent "va"))] in
+  allq (tc_env s) /\
+  exists outs s', check (map stmt_of p) s = Ok (outs, s') /\ length outs = 4%nat.
+Proof.
+  split; [repeat constructor|]. eexists; eexists. split; [vm_compute; reflexivity|reflexivity].
 Qed.
